@@ -338,6 +338,14 @@ func (e *Engine) listen(ln net.Listener, tlsConfig *tls.Config, addConn func(*Co
 			conn, err := ln.Accept()
 			if err == nil && !e.shutdown {
 				addConn(&Conn{Conn: conn}, tlsConfig, decrease)
+				if e.shutdown {
+					// Stop/Shutdown began meanwhile and may have looked at the
+					// connections before this one was registered.
+					e.closeAllConns()
+				}
+			} else if err == nil {
+				// accepted while the engine is being stopped
+				_ = conn.Close()
 			} else {
 				var ne net.Error
 				if ok := errors.As(err, &ne); ok && ne.Timeout() {
@@ -533,6 +541,9 @@ func (e *Engine) Stop() {
 	}
 
 	e.stopListeners()
+	// the core engine only knows the connections of its pollers: the ones that
+	// are read by their own goroutine (blocking I/O modes) are closed here.
+	e.closeAllConns()
 	e.Engine.Stop()
 }
 
